@@ -114,6 +114,60 @@ def udp_indices(items):
     return out
 
 
+@contextlib.contextmanager
+def same_cid_sender():
+    """connections made inside use ONE connection-ID value for both endpoints"""
+    orig = gen_quic.QConn
+
+    class SameCid(orig):
+        def __init__(self, *a, **k):
+            super().__init__(*a, **k)
+            self.scid_s = self.scid_c
+            self.dcid_for_client = self.scid_s
+
+    gen_quic.QConn = SameCid
+    try:
+        yield
+    finally:
+        gen_quic.QConn = orig
+
+
+def post_handshake(rng, c):
+    """more 1-RTT traffic after the generated connection: CRYPTO frames in 1-RTT packets (NewSessionTicket — exported
+    with -a, must not disturb the keys; or, from a misbehaving peer, an EncryptedExtensions / ServerHello-typed message,
+    which makes the tool run set_tls_decryptors again), then key updates and more STREAM data"""
+    kind = rng.choice(["nst", "nst", "nst-split", "ee-1rtt", "sh-1rtt"])
+    d = 1 if kind != "ee-1rtt" or rng.random() < 0.7 else 0
+    if kind == "nst":
+        msg = gen_quic.hs(4, rng.randbytes(rng.randrange(20, 120)))
+    elif kind == "nst-split":
+        msg = gen_quic.hs(4, rng.randbytes(rng.randrange(40, 200))) + gen_quic.hs(4, rng.randbytes(30))
+    elif kind == "ee-1rtt":
+        msg = gen_quic.hs(8, b"\0\0")
+    else:
+        msg = gen_quic.server_hello(rng.randbytes(32), rng.choice([b"\x13\x01", b"\x13\x02", b"\x13\x03"]), rng)
+    if kind == "nst-split":
+        cut = rng.randrange(1, len(msg))
+        parts = [(cut, msg[cut:]), (0, msg[:cut])] if rng.random() < 0.5 else [(0, msg[:cut]), (cut, msg[cut:])]
+    else:
+        parts = [(0, msg)]
+    off = {}
+    for o, part in parts:
+        data = rng.randbytes(rng.randrange(0, 60))
+        chunks = [(3 if d else 2, off.get(d, 0), data, False)] if data else []
+        off[d] = off.get(d, 0) + len(data)
+        c.app(d, chunks, other_before=gen_quic.f_crypto(o, part))
+    for i in range(rng.randrange(2, 7)):
+        dd = rng.randrange(2)
+        if rng.random() < 0.35:
+            c.key_update(dd)
+        data = rng.randbytes(rng.randrange(1, 150))
+        sid = (7 if dd else 6)
+        c.app(dd, [(sid, off.get((dd, sid), 0), data, False)])
+        off[(dd, sid)] = off.get((dd, sid), 0) + len(data)
+    return kind
+
+
 def one_case(rng, force=None):
     """→ (items, keylog lines | None, argv, opt dict, description)"""
     force = dict(force or {})
@@ -121,7 +175,18 @@ def one_case(rng, force=None):
     sports = [rng.choice([443, 443, 443, 44330, 8443]) for _ in range(nq)]
     conns, feats = [], []
     for i in range(nq):
-        c, f = gen_quic.random_connection(rng, i, features={"endpoints": {"sport": sports[i]}, **force.get("features", {})})
+        feat = {"endpoints": {"sport": sports[i]}, **force.get("features", {})}
+        same = rng.random() < force.get("same_cid", 0.05)
+        if same:
+            # RFC 9000 §5.1: each endpoint picks its own connection IDs; nothing keeps both from picking the same bytes
+            n = rng.choice([1, 4, 8])
+            feat.update({"scid_c_len": n, "scid_s_len": n, "retry": False, "prefix_cid": False})
+            with same_cid_sender():
+                c, f = gen_quic.random_connection(rng, i, features=feat)
+        else:
+            c, f = gen_quic.random_connection(rng, i, features=feat)
+        f["same_cid"] = same
+        f["post"] = post_handshake(rng, c) if rng.random() < force.get("post", 0.3) else "none"
         conns.append(c)
         feats.append(f)
     merged = []
@@ -296,6 +361,8 @@ def correspond(ctx, n=None, force=None):
                 ctx.hist("qp-suite", f["suite"])
                 for kk in ("retry", "zero_rtt", "ch_split", "key_updates", "new_cid", "pn_big", "v6", "offer_order"):
                     ctx.hist("qp-" + kk, f[kk])
+                ctx.hist("qp-post-handshake", f["post"])
+                ctx.hist("qp-same-cid-both-endpoints", f["same_cid"])
                 ctx.hist("qp-cid-lens", f"{min(f['scid_c_len'], 1)}/{min(f['scid_s_len'], 1)} (0=empty)")
             if got != want:
                 gi, wi = got.split(" "), want.split(" ")
@@ -305,3 +372,30 @@ def correspond(ctx, n=None, force=None):
                              f"{len(gi)} frames; first difference at #{k0}: {gi[k0][:200] if k0 < len(gi) else '<end>'}",
                              f"{len(wi)} frames; first difference at #{k0}: {wi[k0][:200] if k0 < len(wi) else '<end>'}")
     return pt
+
+
+# ----------------------------------------------------------------------------- a finding the composition surfaced
+def same_cid_witness(seed=0, n=4):
+    """C02 on the REAL code, real crypto: a conformant QUIC v1 connection whose two endpoints chose the same connection-ID
+    bytes (RFC 9000 §5.1 lets each endpoint pick its own; 1-byte CIDs collide once in 256 connections). `packet_isserver`
+    looks the routing DCID up in `server_cids` first, finds it (it is ALSO the server's own CID) and takes every
+    server→client packet for a client packet: nothing of the connection is exported. Returns a replay object in the shape
+    harness/c02.py `replay` reads, plus what the tool exported."""
+    import random
+    import c02
+    rng = random.Random(seed)
+    with same_cid_sender():
+        c = gen_quic.QConn(rng, suite=0x1301, scid_c_len=n, scid_s_len=n)
+    c.scid_s = c.scid_c
+    c.dcid_for_client = c.scid_s
+    c.handshake()
+    for i in range(6):
+        c.app(i % 2, [(i % 2, i // 2 * 10, rng.randbytes(10), False)])
+    cap, kl = wire.pcapng(c.items), "\n".join(c.keylog_lines()) + "\n"
+    r = tool.run(cap, kl)
+    got = None if r.crashed else c02.exported(r.out, c)
+    return {"property": "C02", "signature": "C02:{same-cid}:datagram-mismatch",
+            "case": {"capture_hex": cap.hex(), "keylog": kl, "argv": [],
+                     "endpoint": {"cip": c.cip.hex(), "cport": c.cport, "sip": c.sip.hex(), "sport": c.sport},
+                     "expect": [(t, d, b.hex()) for t, d, b in c.expect]},
+            "exported_datagrams": None if got is None else len(got), "expected_datagrams": len(c.expect)}
